@@ -27,10 +27,10 @@ package rwriter
 //@ func (*ProviderResponseWriter).Close
 //@   property C19
 //@   requires pw != nil && pw.encoder != nil
-//@   at call New#1: assert arg1 == 404 && pw.count == 0
-//@   ensures-local old(pw.count) == 0 ==> result != nil && count("call:Encode") == 0 && count("call:New") == 1
+//@   at call apierror.New#1: assert arg1 == 404 && pw.count == 0
+//@   ensures-local old(pw.count) == 0 ==> result != nil && count("call:Encode") == 0 && count("call:apierror.New") == 1
 //@   ensures-local old(pw.count) != 0 && old(pw.nd) ==> result == nil && count("call:Encode") == 0
-//@   ensures-local old(pw.count) != 0 && !old(pw.nd) ==> count("call:Encode") == 1 && count("call:New") == 0
+//@   ensures-local old(pw.count) != 0 && !old(pw.nd) ==> count("call:Encode") == 1 && count("call:apierror.New") == 0
 
 //@ func NewProviderResponseWriter
 //@   property C19
@@ -44,16 +44,16 @@ package rwriter
 //@   requires w != nil && r != nil && r.URL != nil
 //@   ghost optErr := false
 //@   at call getOpts#1: after ghost optErr := result1 != nil
-//@   at call New#1: assert arg1 == 400
-//@   at call New#2: assert arg1 == 400
-//@   at call New#3: assert arg1 == 400
-//@   at call New#4: assert arg1 == 400
-//@   at call New#5: assert arg1 == 400
-//@   at call New#6: assert arg1 == 400
-//@   at call New#7: assert arg1 == 400
-//@   at call New#8: assert arg1 == 400
-//@   ensures-local result1 != nil && !optErr ==> count("call:New") == 1 && typeis(result1, "*apierror.Error")
-//@   ensures-local result1 == nil ==> result0 != nil && count("call:New") == 0 && result0.status == 200
+//@   at call apierror.New#1: assert arg1 == 400
+//@   at call apierror.New#2: assert arg1 == 400
+//@   at call apierror.New#3: assert arg1 == 400
+//@   at call apierror.New#4: assert arg1 == 400
+//@   at call apierror.New#5: assert arg1 == 400
+//@   at call apierror.New#6: assert arg1 == 400
+//@   at call apierror.New#7: assert arg1 == 400
+//@   at call apierror.New#8: assert arg1 == 400
+//@   ensures-local result1 != nil && !optErr ==> count("call:apierror.New") == 1 && typeis(result1, "*apierror.Error")
+//@   ensures-local result1 == nil ==> result0 != nil && count("call:apierror.New") == 0 && result0.status == 200
 //@   ensures-local result1 == nil ==> (result0.nd ==> count("call:Set") == 3) && (!result0.nd ==> count("call:Set") == 1)
 
 //@ func (*ResponseWriter).WriteHeader
